@@ -16,6 +16,7 @@ META_CLASS = {'meta': ['isEnded', 'isExpired', 'isTimedOut', 'onCooldown', 'shou
 HIST_CLASS = {'hstep': ['mode', 'cfwd', 'op', 'ck', 'st', 'plan', 'status', 'fwd', 'upauth', 'contacted', 'granted', 'pst', 'idtok', 'autologin', 'ignored'],
               'hafter': ['op', 'lstatus', 'deleted', 'status', 'upauth'], 'hstart': ['mode']}
 HIST_CLASS['lockwait'] = ['handler', 'what', 'status', 'contacted', 'upauth', 'exists']
+HIST_CLASS['mixedcfg'] = ['handler', 'idlemin', 'status', 'contacted', 'upauth']
 HIST_NT = {'hstep': lambda f: f.get('ck') != '0', 'hstart': lambda f: False}
 LOCKWAIT_RULE = (" lockwait driver: a refreshing request (manual refresh, proxied request, forward-auth) waits for the refresh lock held by another replica while the session "
                  "passes its inactivity timeout / its end / is logged out / nothing happens; after the lock is released the request must judge the re-read session again (no provider contact, no token, 401). ")
